@@ -12,6 +12,7 @@ import (
 	"path/filepath"
 	"runtime"
 	"sort"
+	"strconv"
 	"strings"
 	"time"
 
@@ -21,7 +22,7 @@ import (
 	"verif/sched"
 )
 
-var opNames = []string{"record-plain", "record-file-link", "record-dir-link", "record-cycle", "record-twice-reached-link", "run", "sign-verify", "dump-load", "load-key", "verify-chain", "match-rules", "substitute", "dsse-control-characters", "malformed-pattern"}
+var opNames = []string{"record-plain", "record-file-link", "record-dir-link", "record-cycle", "record-twice-reached-link", "run", "sign-verify", "dump-load", "load-key", "verify-chain", "match-rules", "substitute", "dsse-control-characters", "malformed-pattern", "record-big-two-algorithms"}
 
 var uniq int
 
@@ -47,6 +48,17 @@ func prepare(base string, op string, slot int) func() string {
 		w("root/a", "A")
 		w("root/d/b", "B")
 		return rec(true)
+	case "record-big-two-algorithms":
+		// a file well above any plausible block or threshold size, digested with two algorithms
+		w("root/big", strings.Repeat("0123456789abcdef", 8192))
+		w("root/small", "s")
+		return func() string {
+			a, err := intoto.RecordArtifacts([]string{filepath.Join(dir, "root")}, []string{"sha256", "sha512"}, nil, []string{dir + "/"}, false, true)
+			if err != nil {
+				return "error: " + strings.ReplaceAll(err.Error(), dir, "<dir>")
+			}
+			return gen.JSON(a)
+		}
 	case "record-file-link":
 		w("root/a", "A")
 		os.Symlink("a", filepath.Join(dir, "root/l"))
@@ -205,6 +217,7 @@ func execute(c *mcx.Ctx, cs Case, ch *mcx.Chooser) (results []string, s *sched.S
 	base := gen.FreshDir(c.Work, "exec")
 	s = sched.New(ch)
 	slot := 0
+	ownDir := map[string]string{}
 	for ti, ops := range cs.Threads {
 		var bodies []func() string
 		idx := []int{}
@@ -215,12 +228,42 @@ func execute(c *mcx.Ctx, cs Case, ch *mcx.Chooser) (results []string, s *sched.S
 			slot++
 		}
 		tb, tidx := bodies, idx
-		s.Go(fmt.Sprintf("T%d", ti+1), func() {
+		tname := fmt.Sprintf("T%d", ti+1)
+		var dirs []string
+		for i, op := range ops {
+			dirs = append(dirs, filepath.Join(base, fmt.Sprintf("t%d-%s", slot-len(ops)+i, op)))
+		}
+		s.Go(tname, func() {
 			for i, b := range tb {
+				ownDir[tname] = dirs[i]
 				results[tidx[i]] = b()
 			}
 		})
 	}
+	// file-system seam: a call on a path outside the directory prepared for the running operation is a
+	// scheduling point and an access to the shared object "file:<path>" (paths inside it are private by
+	// construction); two operations touching one such path, one of them writing, is a data race
+	intoto.VerifFSHook = func(op, path string, write bool) {
+		cur := s.Current()
+		if cur == "" {
+			return
+		}
+		p := path
+		if !strings.HasPrefix(p, "<") {
+			if a, err := filepath.Abs(p); err == nil {
+				p = filepath.Clean(a)
+			}
+			if own := ownDir[cur]; own != "" && (p == own || strings.HasPrefix(p, own+"/")) {
+				return
+			}
+			if strings.HasPrefix(p, gen.KeyDir()+"/") && !write {
+				return // the committed key pool, only ever read
+			}
+		}
+		// the name may embed the process id (scratch files): keep observations comparable between processes
+		s.Access("file:"+strings.ReplaceAll(p, strconv.Itoa(os.Getpid()), "<pid>"), write)
+	}
+	defer func() { intoto.VerifFSHook = nil }()
 	intoto.VerifAccessHook = func(name string, write bool) { s.Access(name, write) }
 	intoto.VerifSyncHook = func(op string, obj any, f func()) bool { return s.Sync(op, obj, f) }
 	s.Run()
@@ -426,8 +469,8 @@ func replay(c *mcx.Ctx, raw json.RawMessage) (string, string) {
 func init() {
 	mcx.Register(&mcx.Driver{
 		ID: "C16", Run: run, Replay: replay,
-		Rule: "operation multisets: every unordered pair of 14 operations on private data (RecordArtifacts on a plain tree / file symlink / followed directory symlink / true cycle / a link reached on two ways; InTotoRun; sign+verify; dump+load; key loading; InTotoVerifyWithDirectory of a private chain; VerifyArtifacts; SubstituteParameters; a DSSE envelope with control characters set, signed, dumped and loaded; VerifyArtifacts with a malformed pattern never used before) as 2 threads x 1 operation, 2 threads x 2 operations over a sub-menu (thorough: larger sub-menu and 3 threads x 1 recording operation); " +
-			"for each, EVERY schedule with at most 2 (thorough 3) preemptions, where scheduling points are all accesses to every package-level variable of package in_toto (discovered by the overlay rewriter, so a hoisted buffer or cache becomes a point automatically) and all sync.Mutex/RWMutex/Once/Map operations; oracle per schedule: no two conflicting accesses unordered by happens-before (vector clocks over the shimmed sync operations), no deadlock or panic, and every operation's result equals the result of the same operation made alone. states = executions, transitions = points passed.",
+		Rule: "operation multisets: every unordered pair of 15 operations on private data (RecordArtifacts on a plain tree / a 128 KiB file with two hash algorithms / file symlink / followed directory symlink / true cycle / a link reached on two ways; InTotoRun; sign+verify; dump+load; key loading; InTotoVerifyWithDirectory of a private chain; VerifyArtifacts; SubstituteParameters; a DSSE envelope with control characters set, signed, dumped and loaded; VerifyArtifacts with a malformed pattern never used before) as 2 threads x 1 operation, 2 threads x 2 operations over a sub-menu (thorough: larger sub-menu and 3 threads x 1 recording operation); " +
+			"for each, EVERY schedule with at most 2 (thorough 3) preemptions, where scheduling points are all accesses to every package-level variable of package in_toto (discovered by the overlay rewriter, so a hoisted buffer or cache becomes a point automatically) all sync.Mutex/RWMutex/Once/Map operations, and every file-system call of the package (os, path/filepath, io/ioutil functions taking a path: the overlay's file-system seam) on a path outside the directory prepared for the running operation - such a path is a shared object like a variable; oracle per schedule: no two conflicting accesses unordered by happens-before (vector clocks over the shimmed sync operations), no deadlock or panic, and every operation's result equals the result of the same operation made alone. states = executions, transitions = points passed.",
 		Assumptions: []string{
 			"memory-model effects below the granularity of variable accesses and races inside dependencies are outside (a free-running -race pass of the same bodies is auxiliary only)",
 			"goroutines and channels inside the library (RunCommand's pipe reader) are not scheduling points; they touch no package-level state",
